@@ -274,6 +274,8 @@ def trusted_preamble(rng):
         lines.append(gen.definition_line(rng))
     if rng.random() < 0.3:
         lines.append(gen.inline(rng, 1))
+    if rng.random() < 0.3:
+        lines.extend(rng.sample(gen.CARRIER_DEFS, rng.randint(1, 3)))
     return clean('\n'.join(lines))
 
 
@@ -291,6 +293,12 @@ class C04(Prop):
             pre = [{'src': trusted_preamble(rng), 'safeMode': 0, 'callback': True} for _ in range(rng.randint(0, 2))]
             lines = [gen.definition_line(rng) for _ in range(rng.randint(1, 5))]
             lines.insert(rng.randrange(len(lines) + 1), hostile_source(rng, ctx.repo))
+            if pre and rng.random() < 0.4:
+                # definitions and options smuggled through a macro the trusted author defined
+                if not any('{note}' in p['src'] for p in pre):
+                    pre[-1]['src'] = (pre[-1]['src'] + '\n' + '\n'.join(gen.CARRIER_DEFS)).lstrip('\n')
+                for _ in range(rng.randint(1, 3)):
+                    lines.insert(rng.randrange(len(lines) + 1), '\n' + rng.choice(gen.CARRIER_USES) + '\n')
             if rng.random() < 0.3:
                 lines.append('..\n' + gen.definition_line(rng) + '\n..')
             if rng.random() < 0.3:
@@ -664,7 +672,10 @@ class C20(Prop):
     RESET = [None, None, True, False, 'true', 'false', 'junk', 1, 0, 1.0, 2]
     DOCS = ['', "para", ".safeMode = '3'", ".safeMode = 'x'\n.safeMode = '0'", ".htmlReplacement = 'DOC'",
             ".safeMode = '1'\n.htmlReplacement = 'late'", ".reset = 'true'", ".safeMode = '16'", "\\.safeMode = '2'",
-            ".htmlReplacement = 'A'\n.safeMode = '4'\n.safeMode = '0'", ".reset = 'junk'", ".bogus = '1'"]
+            ".htmlReplacement = 'A'\n.safeMode = '4'\n.safeMode = '0'", ".reset = 'junk'", ".bogus = '1'",
+            # option elements that come out of a macro the session already has: they are option elements like any other
+            "{note} = '$1'", "{note} = '$1'\n{note|.safeMode='2'}", "{note|.safeMode='0'}", "{note|.htmlReplacement='SM'}",
+            "{note|.safeMode='5'}\n{note|.safeMode='0'}", "{note|.reset='true'}", "x {note|.safeMode='0'}"]
     quick_cases = 1500
 
     def cases(self, ctx):
@@ -695,6 +706,7 @@ class C20(Prop):
         if model:
             model.reset_process()
         mode, repl = 0, DEFAULT_REPLACEMENT     # reference state machine (after the implicit first-call initialisation)
+        carrier = False                         # the session has the macro {note} = '$1'
         interesting = False
         for i, st in enumerate(case['steps']):
             kw = step_kwargs(st)
@@ -727,7 +739,17 @@ class C20(Prop):
                     mode = n
             if st.get('htmlReplacement') is not None:
                 repl = str(st['htmlReplacement'])
+            if r == True or r == 'true':                  # noqa: E712
+                carrier = False
             for line in st['src'].split('\n'):
+                if line == "{note} = '$1'":
+                    # a macro definition counts at safe mode 0 and with bit 8
+                    if mode == 0 or mode & 8:
+                        carrier = True
+                    continue
+                mc = re.match(r"^\{note\|(.*)\}$", line)
+                if mc and carrier:
+                    line = mc.group(1)       # the line macro expands to its argument, which is then read as a line
                 m = re.match(r"^\.(\w+)\s*=\s*'(.*)'$", line)
                 if not m:
                     continue
@@ -746,6 +768,7 @@ class C20(Prop):
                 elif name == 'reset':
                     if value == 'true':
                         mode, repl = 0, DEFAULT_REPLACEMENT
+                        carrier = False
             res.oracle_checks += 1
             got_mode, got_repl = impl.m['options'].safeMode, impl.m['options'].htmlReplacement
             if not (isinstance(got_mode, int) and not isinstance(got_mode, bool) and 0 <= got_mode <= 15):
